@@ -107,6 +107,10 @@ def analyze(ctx, want):
                     cid = S.fstr(lab[1][1])
                     ccs = S.fstr(lab[1][0])
                     same = cid == do.group(1) + ".0" and (do.group(1) + ".0") in ccs and "get_character_class" in ccs and "character_class_registry" in ccs
+                    if not same and cid == do.group(1) + ".0":
+                        # the class is not registered (lookup answered None on this path): the placeholder text
+                        nolook = [c_ for c_, o_ in p.conds if c_[0] == "isvar" and "get_character_class" in S.fstr(c_[1]) and (do.group(1) + ".0") in S.fstr(c_[1]) and ((c_[2] == "None" and o_ is True) or (c_[2] == "Some" and o_ is False))]
+                        same = bool(nolook) and lab[1][0][0] in ("const", "app", "ref", "local", "deref") and not S.mentions(lab[1][0], lambda x: x[0] == "sym" and x[1].startswith("item@"))
                     ob("C18.b", "edge-label-is-the-class-of-the-same-transition", same and "C#" in lab[0], "label args %s" % [S.fstr(v)[:70] for v in lab[1]], rd.loc())
                 else:
                     ob("C18.b", "edge-label-present", False, "edge without a two-part label", rd.loc())
